@@ -25,6 +25,10 @@ def grids(rng, thorough):
     h = rng.uniform(5e-4, 5e-3)
     out.append(("origin", h * np.arange(1, rng.randint(8, 25))))
     out.append(("origin-offset", h * np.arange(1, rng.randint(8, 25)) + rng.uniform(-0.015, 0.015) * h))
+    # merged data (two configurations sharing an overlap, two scans on one grid): some q values occur twice
+    a_ = np.linspace(0.004, 0.05, rng.randint(8, 16))
+    b_ = np.concatenate([a_[-rng.randint(2, 4):], np.linspace(0.055, 0.3, rng.randint(6, 14))])
+    out.append(("merged", np.concatenate([a_, b_])))
     out.append(("two", np.array([0.01, 0.05])))
     out.append(("single", np.array([0.1])))
     if thorough:
@@ -210,6 +214,15 @@ def main(run):
                 continue
             if np.any(np.abs(sg) < 0.02 * np.min(q)):
                 hits.append(r_)
+        # some points measured with perfect resolution (dq = 0) among smeared ones
+        if len(q) >= 4:
+            z_ = 0.05 * q
+            idx_ = rng.sample(range(len(q)), max(1, len(q) // 4))
+            if gname == "merged":
+                srt_ = np.sort(q)
+                idx_ += [int(k) for k in np.nonzero(np.isin(q, srt_[1:][np.diff(srt_) == 0]))[0]]
+            z_[idx_] = 0.0
+            widths.append(("some-zero", z_))
         if hits:
             widths.append(("band", rng.choice(hits) * q))
             stats["pinhole_band_removed"] = stats.get("pinhole_band_removed", 0) + 1
@@ -293,6 +306,10 @@ def main(run):
             try:
                 r = res()
                 y = r.apply(f(r.q_calc))
+                if name == "slit" and 2 <= len(r.q_calc) <= 200:
+                    for i in rng.sample(range(len(q)), min(2, len(q))):
+                        cases.append("(MkCase 1%%nat %s %s %s %s %s %s)" % (flist(r.q_calc), flist([]), fhex(q[i]), fhex(0.0), fhex(0.0), flist(r.weight_matrix[:, i])))
+                        metas.append(dict(kind="slit", geometry="perfect", grid=gname, q=list(map(float, q)), point=int(i)))
                 if not np.array_equal(y, f(q)):
                     run.add(Finding("C03:zero-width:%s" % name, "%s with zero width on the %s grid does not reproduce the unsmeared values (max diff %.3g)" % (
                         name, gname, np.abs(y - f(q)).max()), dict(grid=gname, q=list(map(float, q)))))
